@@ -16,7 +16,7 @@ import (
 	"github.com/MixinNetwork/mixin/crypto"
 )
 
-type cosiState struct {
+type c13CosiState struct {
 	pubs     []*crypto.Key
 	pubDl    []*big.Int // nil: refused encoding / nil pointer; 0: identity
 	msg      crypto.Hash
@@ -25,16 +25,16 @@ type cosiState struct {
 	rDl      *big.Int         // discrete log of sig.Signature[:32]; nil = refused bytes / unknown
 }
 
-func cosiGet(st *State) *cosiState {
-	if v, ok := st.V["cosi"].(*cosiState); ok {
+func c13CosiGet(st *State) *c13CosiState {
+	if v, ok := st.V["cosi"].(*c13CosiState); ok {
 		return v
 	}
-	v := &cosiState{}
+	v := &c13CosiState{}
 	st.V["cosi"] = v
 	return v
 }
 
-func (cs *cosiState) maskKeys() []int {
+func (cs *c13CosiState) maskKeys() []int {
 	var ks []int
 	for i := 0; i < 64; i++ {
 		if cs.sig.Mask>>uint(i)&1 == 1 {
@@ -45,7 +45,7 @@ func (cs *cosiState) maskKeys() []int {
 }
 
 // challenge of the current signature through the real code; nil when Challenge fails
-func (cs *cosiState) challenge() *big.Int {
+func (cs *c13CosiState) challenge() *big.Int {
 	if cs.sig == nil {
 		return nil
 	}
@@ -53,10 +53,10 @@ func (cs *cosiState) challenge() *big.Int {
 	if err != nil {
 		return nil
 	}
-	return bytesScalar(x.Bytes())
+	return c12BytesScalar(x.Bytes())
 }
 
-func chalTok(x *big.Int) string {
+func c13ChalTok(x *big.Int) string {
 	if x == nil {
 		return "-"
 	}
@@ -64,7 +64,7 @@ func chalTok(x *big.Int) string {
 }
 
 // oracle: does the aggregate key of the mask exist (all indexes inside the vector, decodable)?
-func (cs *cosiState) oracleAggKey() (*big.Int, bool) {
+func (cs *c13CosiState) oracleAggKey() (*big.Int, bool) {
 	ks := cs.maskKeys()
 	if len(ks) == 0 {
 		return nil, false
@@ -76,12 +76,12 @@ func (cs *cosiState) oracleAggKey() (*big.Int, bool) {
 		}
 		sum.Add(sum, cs.pubDl[k])
 	}
-	return modL(sum), true
+	return c12ModL(sum), true
 }
 
-func execCosi(st *State, line string) Result {
+func c13ExecCosi(st *State, line string) Result {
 	t := strings.Fields(line)
-	cs := cosiGet(st)
+	cs := c13CosiGet(st)
 	res := Result{Tags: []string{t[0]}}
 	if len(t) == 0 {
 		panic("harness: empty op")
@@ -100,7 +100,7 @@ func execCosi(st *State, line string) Result {
 	case "pub":
 		cs.pubs, cs.pubDl = nil, nil
 		for _, tok := range t[1:] {
-			k, d := parsePointTok(tok)
+			k, d := c12ParsePointTok(tok)
 			cs.pubs = append(cs.pubs, k)
 			cs.pubDl = append(cs.pubDl, d)
 		}
@@ -116,7 +116,7 @@ func execCosi(st *State, line string) Result {
 		for i := 1; i+1 < len(t); i += 2 {
 			var idx int
 			fmt.Sscan(t[i], &idx)
-			k, d := parsePointTok(t[i+1])
+			k, d := c12ParsePointTok(t[i+1])
 			randoms[idx] = k
 			dls[idx] = d
 			if d == nil {
@@ -150,8 +150,8 @@ func execCosi(st *State, line string) Result {
 			rd := "unknown"
 			cs.rDl = nil
 			if known {
-				s := modL(sum)
-				if p := pointOf(s); string(p[:]) == string(c.Signature[:32]) {
+				s := c12ModL(sum)
+				if p := c12PointOf(s); string(p[:]) == string(c.Signature[:32]) {
 					rd = s.String()
 					cs.rDl = s
 				}
@@ -171,19 +171,19 @@ func execCosi(st *State, line string) Result {
 		if !needSig() {
 			break
 		}
-		m := parseBigTok(t[1])
+		m := c12ParseBigTok(t[1])
 		cs.sig.Mask = m.Uint64()
 		res.Out = "ok"
 	case "setsig":
 		if !needSig() {
 			break
 		}
-		k, d := parsePointTok(t[1])
+		k, d := c12ParsePointTok(t[1])
 		if k == nil {
 			panic("harness: setsig needs bytes")
 		}
 		copy(cs.sig.Signature[:32], k[:])
-		sb := scalarBytes(parseBigTok(t[2]))
+		sb := c12ScalarBytes(c12ParseBigTok(t[2]))
 		copy(cs.sig.Signature[32:], sb[:])
 		cs.rDl = d
 		res.Out = "ok"
@@ -205,19 +205,19 @@ func execCosi(st *State, line string) Result {
 			break
 		}
 		x := cs.challenge()
-		y, z := parseBigTok(t[2]), parseBigTok(t[3])
-		yk, zk := crypto.Key(scalarBytes(y)), crypto.Key(scalarBytes(z))
+		y, z := c12ParseBigTok(t[2]), c12ParseBigTok(t[3])
+		yk, zk := crypto.Key(c12ScalarBytes(y)), crypto.Key(c12ScalarBytes(z))
 		out, _, _ := Catch(func() string {
 			s, err := cs.sig.Response(&yk, &zk, cs.pubs, cs.msg)
 			if err != nil {
 				return "err"
 			}
-			return "ok " + bytesScalar(s[:]).String()
+			return "ok " + c12BytesScalar(s[:]).String()
 		})
 		res.Out = out
-		res.LeanIn = fmt.Sprintf("resp %s %s %s", chalTok(x), t[2], t[3])
+		res.LeanIn = fmt.Sprintf("resp %s %s %s", c13ChalTok(x), t[2], t[3])
 		if x != nil {
-			want := modL(new(big.Int).Add(new(big.Int).Mul(x, y), z))
+			want := c12ModL(new(big.Int).Add(new(big.Int).Mul(x, y), z))
 			if out != "ok "+want.String() {
 				res.PropKey, res.PropDesc = "C13:response-value", "Response is not x*y+z: "+out
 			}
@@ -241,8 +241,8 @@ func execCosi(st *State, line string) Result {
 				vals[idx] = nil
 				continue
 			}
-			v := parseBigTok(t[i+1])
-			b := scalarBytes(v)
+			v := c12ParseBigTok(t[i+1])
+			b := c12ScalarBytes(v)
 			responses[idx] = &b
 			vals[idx] = v
 		}
@@ -251,10 +251,10 @@ func execCosi(st *State, line string) Result {
 			if err != nil {
 				return "err"
 			}
-			return "ok " + bytesScalar(cs.sig.Signature[32:]).String()
+			return "ok " + c12BytesScalar(cs.sig.Signature[32:]).String()
 		})
 		res.Out = out
-		head := fmt.Sprintf("aggresp %s %s", chalTok(x), t[2])
+		head := fmt.Sprintf("aggresp %s %s", c13ChalTok(x), t[2])
 		res.LeanIn = strings.Join(append([]string{head}, t[3:]...), " ")
 		// independent oracle
 		ks := cs.maskKeys()
@@ -272,10 +272,10 @@ func execCosi(st *State, line string) Result {
 				want = false
 				continue
 			}
-			if v.Cmp(ellBig) >= 0 {
+			if v.Cmp(c12EllBig) >= 0 {
 				want = false
 			}
-			if x != nil && !dlVerify(cs.pubDl[k], r, v, x) {
+			if x != nil && !c12DlVerify(cs.pubDl[k], r, v, x) {
 				allValid = false
 			}
 			sum.Add(sum, v)
@@ -285,7 +285,7 @@ func execCosi(st *State, line string) Result {
 		}
 		wantOut := "err"
 		if want {
-			wantOut = "ok " + modL(sum).String()
+			wantOut = "ok " + c12ModL(sum).String()
 		}
 		if out != wantOut {
 			key := "C13:aggregate-decision"
@@ -315,8 +315,8 @@ func execCosi(st *State, line string) Result {
 		var sp *[32]byte
 		var sv *big.Int
 		if t[3] != "n" {
-			sv = parseBigTok(t[3])
-			b := scalarBytes(sv)
+			sv = c12ParseBigTok(t[3])
+			b := c12ScalarBytes(sv)
 			sp = &b
 		}
 		out, _, _ := Catch(func() string {
@@ -326,7 +326,7 @@ func execCosi(st *State, line string) Result {
 			return "ok"
 		})
 		res.Out = out
-		res.LeanIn = fmt.Sprintf("vresp %s %s %s", chalTok(x), t[2], t[3])
+		res.LeanIn = fmt.Sprintf("vresp %s %s %s", c13ChalTok(x), t[2], t[3])
 		want := sv != nil && x != nil
 		inMask := false
 		for _, k := range cs.maskKeys() {
@@ -342,7 +342,7 @@ func execCosi(st *State, line string) Result {
 			want = false
 		}
 		if want {
-			want = dlVerify(cs.pubDl[signer], r, sv, x)
+			want = c12DlVerify(cs.pubDl[signer], r, sv, x)
 		}
 		if (out == "ok") != want {
 			key := "C13:verify-response-decision"
@@ -367,12 +367,12 @@ func execCosi(st *State, line string) Result {
 			return "ok"
 		})
 		res.Out = out
-		res.LeanIn = fmt.Sprintf("fullverify %s %s", chalTok(x), t[2])
+		res.LeanIn = fmt.Sprintf("fullverify %s %s", c13ChalTok(x), t[2])
 		a, okA := cs.oracleAggKey()
 		pop := bits.OnesCount64(cs.sig.Mask)
 		want := th > 0 && pop >= th && okA && x != nil
 		if want {
-			want = dlVerify(a, cs.rDl, bytesScalar(cs.sig.Signature[32:]), x)
+			want = c12DlVerify(a, cs.rDl, c12BytesScalar(cs.sig.Signature[32:]), x)
 		}
 		if (out == "ok") != want {
 			key := "C13:fullverify-accepts"
@@ -381,7 +381,7 @@ func execCosi(st *State, line string) Result {
 			}
 			res.PropKey, res.PropDesc = key, fmt.Sprintf("FullVerify(threshold=%d, mask=%x, keys=%d) -> %s, expected ok=%v", th, cs.sig.Mask, len(cs.pubs), out, want)
 		}
-		res.Tags = append(res.Tags, "fullverify:"+out, fmt.Sprintf("fullverify:pop%d", popBucket(pop)))
+		res.Tags = append(res.Tags, "fullverify:"+out, fmt.Sprintf("fullverify:pop%d", c13PopBucket(pop)))
 		res.Nontrivial = out == "ok"
 	default:
 		panic("harness: unknown cosi op " + t[0])
@@ -389,7 +389,7 @@ func execCosi(st *State, line string) Result {
 	return res
 }
 
-func popBucket(p int) int {
+func c13PopBucket(p int) int {
 	switch {
 	case p <= 1:
 		return p
@@ -404,12 +404,12 @@ func popBucket(p int) int {
 	}
 }
 
-func genCosiCase(r *Rand, _ int, tier string) []string {
+func c13GenCosiCase(r *Rand, _ int, tier string) []string {
 	sh := &State{V: map[string]any{}}
 	var lines []string
 	emit := func(l string) Result {
 		lines = append(lines, l)
-		return execCosi(sh, l)
+		return c13ExecCosi(sh, l)
 	}
 	emit("reset")
 	n := Pick(r, []int{1, 2, 3, 4, 5, 8, 13, 21, 33, 63, 64, 64, 65, 70})
@@ -419,13 +419,13 @@ func genCosiCase(r *Rand, _ int, tier string) []string {
 	privs := make([]*big.Int, n)
 	toks := make([]string, n)
 	for i := range privs {
-		privs[i] = randScalar(r)
+		privs[i] = c12RandScalar(r)
 		toks[i] = privs[i].String()
 	}
 	if n >= 2 && r.Chance(1, 25) { // a key and its negation
 		i, j := r.Intn(n), r.Intn(n)
 		if i != j {
-			privs[j] = new(big.Int).Sub(ellBig, privs[i])
+			privs[j] = new(big.Int).Sub(c12EllBig, privs[i])
 			toks[j] = privs[j].String()
 		}
 	}
@@ -439,7 +439,7 @@ func genCosiCase(r *Rand, _ int, tier string) []string {
 			toks[i] = "0"
 			privs[i] = new(big.Int)
 		default:
-			toks[i] = "x" + genBadPoint(r)
+			toks[i] = "x" + c12GenBadPoint(r)
 		}
 	}
 	emit("pub " + strings.Join(toks, " "))
@@ -473,19 +473,19 @@ func genCosiCase(r *Rand, _ int, tier string) []string {
 	rs := map[int]*big.Int{}
 	var ctoks []string
 	for _, i := range set {
-		rs[i] = randScalar(r)
+		rs[i] = c12RandScalar(r)
 	}
 	if len(set) >= 2 && r.Chance(1, 40) { // commitments cancel: R = identity
 		sum := new(big.Int)
 		for _, i := range set[1:] {
 			sum.Add(sum, rs[i])
 		}
-		rs[set[0]] = modL(new(big.Int).Neg(sum))
+		rs[set[0]] = c12ModL(new(big.Int).Neg(sum))
 	}
 	for _, i := range set {
 		tok := rs[i].String()
 		if r.Chance(1, 60) {
-			tok = Pick(r, []string{"xnil", "0", "x" + genBadPoint(r)})
+			tok = Pick(r, []string{"xnil", "0", "x" + c12GenBadPoint(r)})
 		}
 		ctoks = append(ctoks, fmt.Sprintf("%d %s", i, tok))
 	}
@@ -493,7 +493,7 @@ func genCosiCase(r *Rand, _ int, tier string) []string {
 		ctoks = nil
 	}
 	cres := emit(strings.TrimSpace("commit " + strings.Join(ctoks, " ")))
-	cs := cosiGet(sh)
+	cs := c13CosiGet(sh)
 	if !strings.HasPrefix(cres.Out, "ok") {
 		emit("challenge")
 		emit("fullverify ? 1")
@@ -507,7 +507,7 @@ func genCosiCase(r *Rand, _ int, tier string) []string {
 	x := cs.challenge()
 	xv := x
 	if xv == nil {
-		xv = randScalar(r)
+		xv = c12RandScalar(r)
 	}
 	share := func(i int) *big.Int {
 		a := new(big.Int)
@@ -518,7 +518,7 @@ func genCosiCase(r *Rand, _ int, tier string) []string {
 		if rr == nil {
 			rr = new(big.Int)
 		}
-		return modL(new(big.Int).Add(new(big.Int).Mul(xv, a), rr))
+		return c12ModL(new(big.Int).Add(new(big.Int).Mul(xv, a), rr))
 	}
 	// one real Response call
 	if i := set[0]; i < len(privs) && privs[i] != nil && privs[i].Sign() != 0 {
@@ -536,15 +536,15 @@ func genCosiCase(r *Rand, _ int, tier string) []string {
 	case kind < 11: // honest
 	case kind == 11:
 		i := Pick(r, set)
-		shares[i] = modL(new(big.Int).Add(shares[i], big.NewInt(int64(1+r.Intn(3)))))
+		shares[i] = c12ModL(new(big.Int).Add(shares[i], big.NewInt(int64(1+r.Intn(3)))))
 	case kind == 12 && len(set) >= 2: // compensating errors: the sum is still right
 		i, j := set[0], set[len(set)-1]
-		d := randScalar(r)
-		shares[i] = modL(new(big.Int).Add(shares[i], d))
-		shares[j] = modL(new(big.Int).Sub(shares[j], d))
+		d := c12RandScalar(r)
+		shares[i] = c12ModL(new(big.Int).Add(shares[i], d))
+		shares[j] = c12ModL(new(big.Int).Sub(shares[j], d))
 	case kind == 13: // non-canonical scalar
 		i := Pick(r, set)
-		shares[i] = new(big.Int).Add(shares[i], ellBig)
+		shares[i] = new(big.Int).Add(shares[i], c12EllBig)
 	case kind == 14:
 		nilIdx = Pick(r, set)
 	case kind == 15: // missing
@@ -554,7 +554,7 @@ func genCosiCase(r *Rand, _ int, tier string) []string {
 		e := r.Intn(66) - 1
 		if _, dup := shares[e]; !dup {
 			order = append(order, e)
-			shares[e] = randScalar(r)
+			shares[e] = c12RandScalar(r)
 			if r.Bool() {
 				nilIdx = e
 			}
@@ -592,7 +592,7 @@ func genCosiCase(r *Rand, _ int, tier string) []string {
 		i := Pick(r, set)
 		switch r.Intn(6) {
 		case 0:
-			emit(fmt.Sprintf("vresp ? %d %s", i, modL(new(big.Int).Add(share(i), big.NewInt(1)))))
+			emit(fmt.Sprintf("vresp ? %d %s", i, c12ModL(new(big.Int).Add(share(i), big.NewInt(1)))))
 		case 1:
 			emit(fmt.Sprintf("vresp ? %d n", i))
 		case 2:
@@ -616,7 +616,7 @@ func genCosiCase(r *Rand, _ int, tier string) []string {
 		emit(fmt.Sprintf("fullverify ? %d", th))
 	}
 	// tampering after aggregation
-	S := bytesScalar(cs.sig.Signature[32:])
+	S := c12BytesScalar(cs.sig.Signature[32:])
 	rTok := "x" + Hex(cs.sig.Signature[:32])
 	if cs.rDl != nil {
 		rTok = cs.rDl.String()
@@ -627,13 +627,13 @@ func genCosiCase(r *Rand, _ int, tier string) []string {
 	case 1:
 		emit(fmt.Sprintf("setmask %d", cs.sig.Mask^(1<<uint(r.Intn(64)))))
 	case 2:
-		emit(fmt.Sprintf("setsig %s %s", rTok, modL(new(big.Int).Add(S, big.NewInt(1)))))
+		emit(fmt.Sprintf("setsig %s %s", rTok, c12ModL(new(big.Int).Add(S, big.NewInt(1)))))
 	case 3:
-		emit(fmt.Sprintf("setsig %s %s", rTok, new(big.Int).Add(S, ellBig)))
+		emit(fmt.Sprintf("setsig %s %s", rTok, new(big.Int).Add(S, c12EllBig)))
 	case 4:
-		emit(fmt.Sprintf("setsig %s %s", randScalar(r), S))
+		emit(fmt.Sprintf("setsig %s %s", c12RandScalar(r), S))
 	case 5:
-		emit(fmt.Sprintf("setsig x%s %s", genBadPoint(r), S))
+		emit(fmt.Sprintf("setsig x%s %s", c12GenBadPoint(r), S))
 	case 6:
 		emit("msg " + Hex(r.Bytes(32)))
 	default:
@@ -653,8 +653,8 @@ func init() {
 			"Challenge/Response, share sets honest (55%) or with one wrong/non-canonical/nil/missing/extra/swapped/bit-flipped share or " +
 			"compensating errors, strict and lenient aggregation, VerifyResponse, FullVerify at thresholds popcount, popcount+1, 1, ≤0, " +
 			"then mask/R/S/message tampering; non-trivial = the real call accepted; distinct = distinct op line",
-		Gen:  genCosiCase,
-		Exec: execCosi,
+		Gen:  c13GenCosiCase,
+		Exec: c13ExecCosi,
 		Corpus: [][]string{
 			// two keys that are negations of each other: aggregate key is the identity, verification must fail
 			{"reset", "pub 5 7237005577332262213973186563042994240857116359379907606001950938285454250984", "msg " + strings.Repeat("ab", 32),
